@@ -46,10 +46,24 @@ RULE = ("cases = scenario templates over a catalogue of 44 class specifications 
         "any template gets switch operations inserted; the erased universe keeps the switch in its default state; "
         "every fingerprint is taken with validators enabled and its assignment/construction probes again with "
         "validators disabled; "
+        "(0e) USE: read-only uses (fields, fields_dict, has, asdict, astuple, evolve, validate, repr/eq/hash, copy, pickle, "
+        "a whole fingerprint) of any class of the universe -- bases, their roots, undecorated classes put BETWEEN an attrs "
+        "base and the bodies (harness-only `plainMid`), earlier classes -- are steps of a history (define, look, define, "
+        "observe), erased in the other universe; a dedicated template with frozen dict / MRO-collecting decorators and "
+        "every fifth scenario of any template; "
+        "(0f) THREADS: definitions run in the main thread, one worker thread per universe, or a fresh thread each, while "
+        "the shared counting attrs are created in another fresh thread (classic counter-ordered bodies mixing both); "
         "(5) shared counting attrs (also re-declared base fields) with @ca.validator/@ca.default between definitions; (6) fields over shared "
         "argument containers with appends between definitions; (7) random mixtures with histories up to 6 steps. "
         "non-trivial = the history contains at least one definition that succeeded; distinct = distinct JSON case")
 ASSUMPTIONS = [
+    "converters are closures of ONE factory (one __code__) whose annotations are owner-tagged marker types: the ownership "
+    "oracle also covers every annotation found on generated methods, Converter.__call__ and pipe()/optional() results; the "
+    "globals a generated method shares with its class's module are the module's, not attrs's, and are not walked",
+    "non-attrs classes of the universe (plain bases, undecorated classes in between) must keep their own __dict__ unchanged "
+    "by every step (CPython's own __slotnames__ cache written by copy/pickle is ignored); generic aliases (where attrs's "
+    "fields() documents a cache write) and multiple inheritance are not generated; which thread runs what, which class a "
+    "use step touches and `plainMid` are harness-only variation the model is independent of",
     "process environment: attr._config has one flag (_run_validators); it is the only environment dimension varied -- "
     "interpreter flags (-O, sys.flags) cannot be changed in-process and sys.modules/linecache belong to C17; T1 names every "
     "function of _make.py/_next_gen.py that reads `_config.<attr>` as code (not as text of a generated method)",
@@ -75,7 +89,7 @@ ASSUMPTIONS = [
     "variation the model is independent of (it only sees conv / nValid / hasDefault / sizes)",
 ]
 EXHAUSTIVE = {"quick": False, "thorough": False}
-BUDGET_S = {"quick": 30, "thorough": 400}
+BUDGET_S = {"quick": 24, "thorough": 400}
 TABLES = ["attrsKw", "defineKw", "frozenPartialKw", "attrsWrapRebinds", "defineWrapRebinds", "makeClassDictAliased",
           "configReaders"]
 PARALLEL = True
@@ -749,6 +763,77 @@ def with_env(case, rng):
     return c
 
 
+FROZEN_DICT_DECOS = [A("define", slots=False, frozen=True), A("frozen", slots=False), A("attrS", frozen=True, x={"collect_by_mro": True}),
+                     A("define", slots=False), A("define"), A("frozen"), A("attrS", x={"collect_by_mro": True}), A("attrS")]
+
+
+def use_step(rng):
+    return {"use": {"k": rng.randrange(10000)}}
+
+
+def with_use(case, rng):
+    """read-only uses (fields / asdict / evolve / validate / copy / ...) of classes of the universe inside a history"""
+    c = copy.deepcopy(case)
+    for _ in range(rng.choice([1, 2, 3])):
+        c["steps"].insert(rng.randrange(len(c["steps"]) + 1), use_step(rng))
+    c["tpl"] = str(c.get("tpl")) + "+use"
+    return c
+
+
+def with_threads(case, rng):
+    """which thread creates the shared counting attrs and which one runs the definitions (harness-only)"""
+    c = copy.deepcopy(case)
+    c["threads"] = {"cas": rng.random() < 0.7, "defs": rng.choice(["worker", "worker", "fresh", "main"])}
+    c["tpl"] = str(c.get("tpl")) + "+thr"
+    return c
+
+
+def t_use(rng):
+    """define, look, define, observe: an undecorated class sits between an attrs base and the classes of the
+    history; it (or the base, or an earlier class) is introspected / used before the target is defined"""
+    base = rng.choice([b for b in ATTRS_BASES if b not in ("hookedDefine", "deepHooked")] + ["plain"])
+    d = copy.deepcopy(rng.choice(FROZEN_DICT_DECOS))
+    decos = [d] if rng.random() < 0.6 else [d, copy.deepcopy(rng.choice(FROZEN_DICT_DECOS))]
+
+    def body(name):
+        legacy = decos[0]["api"] == "attrS"
+        fields = [F("x", not legacy or rng.random() < 0.3, default=rng.random() < 0.3)] if rng.random() < 0.8 else []
+        c = C(fields, base=base)
+        c["x"] = {"name": name, "plainMid": rng.random() < 0.8, "fieldApi": rng.choice(["ib", "field"])}
+        return c
+
+    steps = []
+    if rng.random() < 0.5:
+        steps.append(defDeco(0, body("A")))
+    for _ in range(rng.choice([1, 2, 3, 6])):
+        steps.append(use_step(rng))
+    if rng.random() < 0.3:
+        steps.insert(rng.randrange(len(steps) + 1), defDeco(len(decos) - 1, body("A2")))
+    return scenario(decos, steps, defDeco(len(decos) - 1, body("B")), cas=[CA()], tpl="use")
+
+
+def t_thread(rng):
+    """classic (counter-ordered) bodies mixing shared counting attrs, created in another thread, with fresh fields;
+    definitions run in one worker thread / a fresh thread each / the main thread"""
+    n_cas = rng.choice([1, 2, 3])
+    cas = [CA(default=False, conv=rng.random() < 0.4, nValid=rng.choice([0, 1])) for _ in range(n_cas)]
+    d = copy.deepcopy(rng.choice([A("attrS"), A("attrS", autoDetect=True), A("define"), A("attrS", slots=True), A("define", slots=False)]))
+
+    def body(name):
+        js = sorted(rng.sample(range(n_cas), rng.randint(1, n_cas)))
+        fields = [F(f"s{j}", False, "shared", ca=j) for j in js]
+        for n in ["x", "y", "z"][:rng.choice([1, 1, 2, 3])]:
+            fields.append(F(n, False, "inline", conv=rng.random() < 0.3))
+        c = C(fields, base=rng.choice(["object", "object", "mutableAttrS"]))
+        c["x"] = {"name": name, "fieldApi": "ib"}
+        return c
+
+    steps = [defDeco(0, body("A%d" % i)) for i in range(rng.choice([1, 2, 3]))]
+    case = scenario([d], steps, defDeco(0, body("B")), cas=cas, tpl="thread")
+    case["threads"] = {"cas": rng.random() < 0.8, "defs": rng.choice(["worker", "worker", "worker", "fresh", "main"])}
+    return case
+
+
 def t_env(rng):
     """a class defined while validators are switched off (and used after they are switched on again)"""
     d = _rand_deco(rng) if rng.random() < 0.7 else copy.deepcopy(rng.choice(TWIN_DECOS))
@@ -764,12 +849,14 @@ def t_env(rng):
 
 
 TEMPLATES.insert(6, t_env)
+TEMPLATES.insert(3, t_use)
+TEMPLATES.insert(9, t_thread)
 
 
 def _gen_cases(tier, rng):
     # 0. layout twins first (library-global state keyed by field layout needs no shared decorator or container)
     for i in range(1000 if tier == "quick" else 40000):
-        yield (t_twin, t_siblings, t_pool, t_lists, t_env)[i % 5](rng)
+        yield (t_twin, t_siblings, t_pool, t_lists, t_env, t_use, t_thread)[i % 7](rng)
     # 1. every (decorator, A) of the catalogue through one shared decorator object, B from the sensitive set
     if tier == "quick":
         order = [(d, a) for d in DECO_NAMES for a in CAT]
@@ -791,7 +878,13 @@ def _gen_cases(tier, rng):
 def gen_cases(tier, rng):
     """every fifth scenario additionally gets changes of the process environment somewhere in its history"""
     for i, c in enumerate(_gen_cases(tier, rng)):
-        yield with_env(c, rng) if i % 5 == 4 else c
+        if i % 5 == 4:
+            c = with_env(c, rng)
+        elif i % 5 == 2:
+            c = with_use(c, rng)
+        elif i % 10 == 3:
+            c = with_threads(c, rng)
+        yield c
 
 
 # ------------------------------------------------------------------ observation
@@ -822,8 +915,8 @@ def _run(world, steps, target, erase):
             hist.append(r)
             if cls is not None:
                 made.append((cls, W.deep_of(cls, world.allowed_of(cls))))
-        elif st in W.ENV_OPS and erase:
-            continue            # the erased universe keeps the process environment in its default state
+        elif erase and (st in W.ENV_OPS or (isinstance(st, dict) and "use" in st)):
+            continue            # the erased universe keeps the process environment in its default state, nothing is used
         else:
             hist.append(world.user_op(st))
     s0 = world.snapshot()
@@ -834,13 +927,24 @@ def _run(world, steps, target, erase):
 
 
 def _observe(case):
+    worlds = []
+    try:
+        return _observe2(case, worlds)
+    finally:
+        for w in worlds:
+            w.close()
+
+
+def _observe2(case, worlds):
     # the universe without the history's definitions runs first: state leaked through process globals by
     # this case's history cannot reach it
     wb = W.World(case, "b", fp_bases=False)
+    worlds.append(wb)
     alone, deep_b, _, _, _ = _run(wb, case["steps"], case["target"], erase=True)
     import attr
     attr.validators.set_disabled(False)
     wa = W.World(case, "a")
+    worlds.append(wa)
     after, deep_a, hist, made, snaps_ok = _run(wa, case["steps"], case["target"], erase=False)
     run_after = not attr.validators.get_disabled()      # only the history's own switch operations moved it
     attr.validators.set_disabled(False)
@@ -849,7 +953,9 @@ def _observe(case):
         return wa.roots[k[5:]] if k.startswith("root:") else wa.bases[k]
 
     bases_again = [(W.deep_of(_b(k), wa.allowed_of(_b(k))), fp) for k, fp in wa.base_fp.items()]
-    earlier = all(x == d for x, d in again + bases_again)
+    # ... and no class attrs never decorated (plain bases, undecorated classes in between) has anything left behind on it
+    residue_free = all(W.plain_snapshot(c) == snap for c, snap in wa.plain_dicts)
+    earlier = all(x == d for x, d in again + bases_again) and residue_free
     # no class of either universe ever holds or runs a callable of another class (of any universe, of any case)
     fps = [deep_a, deep_b] + [x for x, _ in again + bases_again] + [d for _, d in again + bases_again] + list(wb.base_fp.values())
     foreign_free = all(not (isinstance(f, dict) and f.get("foreign")) for f in fps)
